@@ -261,7 +261,7 @@ def check_inv_paths(S: "FieldSubject"):
             except _Continue:
                 continue
     try:
-        paths = alg_paths(S.world, run, AlgState(), native_fields=False, summaries={UTILS_INV: inv_rat},
+        paths = alg_paths(S.world, run, AlgState(modulus=p), native_fields=False, summaries={UTILS_INV: inv_rat},
                           while_hooks={m.qualname: bounded}, fuel=400_000)
     except AnalysisError as ex:
         return [("inv(): a·a.inv() = 1 on every path (degree 2)", False, f"not analysable: {ex}", m.where)]
